@@ -479,7 +479,7 @@ def parse_unit(path):
         if cur is None:
             raise ValueError("%s:%d directive outside fn block: %s" % (path, i + 1, s))
         # directives inside a fn block (not indented by 4)
-        m = re.match(r"(\w+)\s*(.*)$", s)
+        m = re.match(r"(\w+\??)\s*(.*)$", s)
         d, rest = m.group(1), m.group(2)
         more, i2 = collect(i + 1)
         full = rest + ("\n" + more if more else "")
@@ -508,10 +508,10 @@ def parse_unit(path):
         elif d == "closure":
             m2 = re.match(r"(\d+)\s*:?\s*(.*)$", full, re.S)
             cur.closures[int(m2.group(1))] = m2.group(2)
-        elif d == "rewrite":
-            # rewrite /regex/ => replacement   # why
+        elif d in ("rewrite", "rewrite?"):
+            # rewrite /regex/ => replacement   # why      (`rewrite?`: optional - applied where the pattern occurs, no lost anchor otherwise)
             m2 = re.match(r"/(.*?)/\s*=>\s*(.*?)\s*(?:##\s*(.*))?$", full, re.S)
-            cur.rewrites.append((m2.group(1), m2.group(2), m2.group(3) or ""))
+            cur.rewrites.append((m2.group(1), m2.group(2), (m2.group(3) or "") + ("@@optional" if d.endswith("?") else "")))
         elif d == "item":
             cur.opts["item"] = rest.strip()
         elif d == "attr":
@@ -733,7 +733,10 @@ def emit_fn(out, u, fs, rules_used):
         text1 = t2
     for (rx, rp, why) in fs.rewrites:
         t2, nsub = re.subn(rx, rp, text1, flags=re.S)
+        optional = why.endswith("@@optional")
+        why = why.replace("@@optional", "")
         if nsub == 0:
+            if optional: continue
             raise LostAnchor("rewrite /%s/ of %s matched nothing" % (rx, fs.name))
         rules_used.add("Rx:%s:%s" % (fs.name, why or rx))
         text1 = t2
